@@ -23,7 +23,7 @@ class Payload:
         return hash((self.i, self.tag))
 
 
-def make_probe_tasks(names, ctx_ref, payloads):
+def make_probe_tasks(names, ctx_ref, payloads, shared=False):
     """probe tasks: do() is a synchronisation point, then returns an object of the solver-chosen kind"""
     from valjean.cosette.task import Task, TaskStatus
 
@@ -45,6 +45,8 @@ def make_probe_tasks(names, ctx_ref, payloads):
             ctx.ex.solver.add(ctx.read(f'kind{i}') == k)
             kind = KINDS[k]
             upd_ok = {self.name: {'result': payloads[i]}}
+            if shared:
+                upd_ok['shared'] = {self.name: payloads[i]}
             if kind == 'done':
                 return upd_ok, TaskStatus.DONE
             if kind == 'failed':
@@ -63,7 +65,8 @@ def make_probe_tasks(names, ctx_ref, payloads):
 
 class Config:
     """one scheduling configuration: tasks, hard/soft edges, number of workers"""
-    def __init__(self, n_tasks, hard, soft, n_workers, prior=None):
+    def __init__(self, n_tasks, hard, soft, n_workers, prior=None, shared=False):
+        self.shared = shared            # successful tasks also publish under ONE shared environment key
         self.prior = prior              # (hard, soft) of a graph scheduled EARLIER in the process with the same task objects
         self.n = n_tasks
         self.hard = sorted(hard)        # (i, j): task i depends (hard) on task j
@@ -72,11 +75,11 @@ class Config:
         self.names = [f't{i}' for i in range(n_tasks)]
 
     def key(self):
-        return f'n{self.n}-h{self.hard}-s{self.soft}-w{self.w}'.replace(' ', '')
+        return f'n{self.n}-h{self.hard}-s{self.soft}-w{self.w}{"-shared" if self.shared else ""}'.replace(' ', '')
 
 
 def make_schema(cfg, extra_fields=()):
-    s = Schema(cfg.names, cfg.w + 1, extra_fields)
+    s = Schema(cfg.names, cfg.w + 1, extra_fields, shared_entry='shared' if cfg.shared else None)
     for i in range(cfg.n):
         s.vars[f'kind{i}'] = 'int'
     return s
@@ -109,7 +112,7 @@ def extract(cfg, role, extra_fields=(), max_paths=200000):
     aut = Automaton(role)
     aut.schema, aut.intern, aut.payloads, aut.old_payloads = schema, intern, payloads, old_payloads
     ctx_ref = [None]
-    tasks = make_probe_tasks(cfg.names, ctx_ref, payloads)
+    tasks = make_probe_tasks(cfg.names, ctx_ref, payloads, cfg.shared)
     WT = qmod.QueueScheduling.WorkerThread
     if cfg.prior is not None and role == 'master':
         # "whatever was scheduled earlier in the process": a real, concrete run of another graph over the SAME
